@@ -96,6 +96,12 @@ def ValidLog (s0 : σ) (log : List (Ev Req Resp)) : Prop := (replay step (initR 
 def Linearizable (s0 : σ) (h : List (Ev Req Resp)) : Prop :=
   ∃ log, history log = h ∧ ValidLog step s0 log
 
+/-- a specification with a CLOCK: every request carries the virtual time `now` at which it was
+    invoked, and the specification judges it at that time (`specAt step (now, req) = step now req`).
+    Time passing is not an operation of any client: what an operation sees (e.g. whether a key's
+    deadline has passed) is a function of ITS invocation time. -/
+def specAt {τ : Type} (step : Nat → σ → τ → σ × Resp) (s : σ) (p : Nat × τ) : σ × Resp := step p.1 s p.2
+
 /-! ## executable checker -/
 
 /-- WGL-style search with just-in-time linearization: consume the next history event whenever it
